@@ -287,7 +287,7 @@ def r2_state(ctx, s: Site, variant):
 MUTATORS = {"fill", "sort", "resize", "itemset", "put", "partition"}
 
 
-def r3_poison(ctx, sites):
+def r3_poison(ctx, sites, rule="C26.R3", want_file=lambda rel: True, floor=80):
     rep = ctx.rep
     cached_names = {s.fn.name for s in sites}
     # lambda aliases that directly return a cached call: self.X = lambda ...: <recv>.cached(...)
@@ -313,7 +313,7 @@ def r3_poison(ctx, sites):
     names = cached_names | alias
     n_bind = 0
     for rel, mod in ctx.repo.modules.items():
-        if not rel.startswith("cardillo/"):
+        if not rel.startswith("cardillo/") or not want_file(rel):
             continue
         for q, fn in mod.defs().items():
             if not isinstance(fn, ast.FunctionDef):
@@ -343,7 +343,7 @@ def r3_poison(ctx, sites):
                     if tgts:
                         bind[node.id] = tgts
                         n_bind += 1
-                        rep.ok("C26.R3", C, f"binds memoised result: {norm_src(node.ast)[:100]}")
+                        rep.ok(rule, C, f"binds memoised result: {norm_src(node.ast)[:100]}")
             for node in cfg.nodes:
                 if node.kind != "stmt":
                     continue
@@ -358,7 +358,7 @@ def r3_poison(ctx, sites):
                         mutated.append(base.id)
                     # direct: self.A_IB(t,q)[..] += ...
                     if isinstance(base, ast.Call) and isinstance(base.func, ast.Attribute) and base.func.attr in names:
-                        rep.bad("C26.R3", C, a, "in-place update of a memoised result", f"{rel}:{a.lineno}")
+                        rep.bad(rule, C, a, "in-place update of a memoised result", f"{rel}:{a.lineno}")
                 elif isinstance(a, ast.Assign):
                     for t in a.targets:
                         for e in (t.elts if isinstance(t, (ast.Tuple, ast.List)) else [t]):
@@ -369,7 +369,7 @@ def r3_poison(ctx, sites):
                                 if isinstance(base, ast.Name):
                                     mutated.append(base.id)
                                 if isinstance(base, ast.Call) and isinstance(base.func, ast.Attribute) and base.func.attr in names:
-                                    rep.bad("C26.R3", C, a, "subscript store into a memoised result", f"{rel}:{a.lineno}")
+                                    rep.bad(rule, C, a, "subscript store into a memoised result", f"{rel}:{a.lineno}")
                 elif isinstance(a, ast.Expr) and isinstance(a.value, ast.Call):
                     f = a.value.func
                     if isinstance(f, ast.Attribute) and f.attr in MUTATORS and isinstance(f.value, ast.Name):
@@ -380,11 +380,11 @@ def r3_poison(ctx, sites):
                 for nm in mutated:
                     for d in rd.defs_reaching(node, nm):
                         if d.id in bind and nm in bind[d.id] and d is not node:
-                            rep.bad("C26.R3", C, a,
+                            rep.bad(rule, C, a,
                                     f"`{nm}` holds the array returned by a memoised method (`{norm_src(d.ast)[:80]}`) and is mutated in place: "
                                     f"the cache entry is corrupted for every later hit", f"{rel}:{a.lineno}")
-    if n_bind < 80:
-        raise AnalysisError(f"only {n_bind} sites binding a memoised result found (108 measured at design time)")
+    if n_bind < floor:
+        raise AnalysisError(f"{rule}: only {n_bind} sites binding a memoised result found (floor {floor})")
 
 
 S2S = "cardillo/contacts/sphere2sphere.py"
